@@ -326,7 +326,9 @@ class AtomTracker:
                         killed.add((s, o, v, tr))
             if killed:
                 st = frozenset(x for x in st if x not in killed)
-            return st
+            return self._learn(n, st)
+        if n.kind == "stmt" and label not in ("exc", "raise"):
+            return self._learn(n, st)
         if n.kind == "test" and label in ("T", "F"):
             if n.id not in self._cache:
                 self._cache[n.id] = self.at.node_atom(n)
@@ -345,10 +347,35 @@ class AtomTracker:
                 for (s, o, v, tr) in st:
                     if s == a.subject and o == "==" and tr and v != a.value:
                         return None
+            for (s_, o_, v_, tr_) in st:
+                if s_ == a.subject and o_ == "==" and tr_:
+                    if a.op == "in" and (v_ in a.value) != truth:
+                        return None
+                    if a.op == "==" and (v_ == a.value) != truth:
+                        return None
             if (a.subject, a.op, a.value, truth) in st:
                 return st
             return st | {(a.subject, a.op, a.value, truth)}
         return st
+
+
+def _learn(self, n: Node, st):
+    """A store of a foldable constant into a tracked subject establishes  subject == value."""
+    a = n.ast
+    if isinstance(a, ast.Assign) and len(a.targets) == 1:
+        d = ast.unparse(a.targets[0])
+        if d in self.subjects:
+            ok, v = self.at.const(a.value)
+            if ok:
+                try:
+                    hash(v)
+                except TypeError:
+                    return st
+                st = frozenset(x for x in st if x[0] != d) | {(d, "==", v, True)}
+    return st
+
+
+AtomTracker._learn = _learn
 
 
 class ComboTracker:
@@ -368,3 +395,38 @@ class ComboTracker:
                 return None
             out.append(s2)
         return tuple(out)
+
+
+class AssumeTracker:
+    """Decides tests about given subjects from assumed concrete values
+    ({'self.state': 0x11, 'self.is_receiver': True}); everything else is free."""
+
+    def __init__(self, atomizer: Atomizer, values: dict):
+        self.at = atomizer
+        self.values = dict(values)
+        self._cache: dict[int, Atom | None] = {}
+
+    def initial(self):
+        return ()
+
+    def step(self, n: Node, label: str, st):
+        if n.kind != "test" or label not in ("T", "F"):
+            return st
+        if n.id not in self._cache:
+            self._cache[n.id] = self.at.node_atom(n)
+        a = self._cache[n.id]
+        if a is None or a.subject not in self.values:
+            return st
+        v = self.values[a.subject]
+        if a.op == "==":
+            truth = (v == a.value)
+        elif a.op == "in":
+            truth = v in a.value
+        elif a.op == "truthy":
+            truth = bool(v)
+        elif a.op == "is":
+            truth = v is a.value
+        else:
+            return st
+        taken = (label == "T") ^ a.flip
+        return st if taken == truth else None
